@@ -53,14 +53,16 @@ VARIABLES
     pex,      \* pools that exist (credited at least once)
     att,      \* account -> sequence of attached pools (attachment order)
     lock,     \* 0 or the session holding the contract lock
-    olds,     \* the contracts this one was olds / refreshed from, frozen: sequence of [rev, roots]
+    tipd,     \* TIME: chain tip height minus the contract's proof height.  A revision can be confirmed only while
+              \* tipd < 0; from tipd = 0 on every revising request is too late and must change nothing
+    olds,     \* the contracts this one was renewed / refreshed from, frozen: sequence of [rev, roots]
               \* (after a renewal `rev` / `roots` are those of the RENEWAL; the host still holds the old ones)
     sess,     \* per session: what the host handler is doing
     act, reply, calls   \* bookkeeping: last action, what the renter read, contractor/sector calls made
 
-data  == <<rev, sigs, roots, stored, acct, pool, pex, att, olds>>
-vars  == <<rev, sigs, roots, stored, acct, pool, pex, att, lock, olds, sess, act, reply, calls>>
-view  == <<rev, sigs, roots, stored, acct, pool, pex, att, lock, olds, sess>>
+data  == <<rev, sigs, roots, stored, acct, pool, pex, att, olds, tipd>>
+vars  == <<rev, sigs, roots, stored, acct, pool, pex, att, lock, olds, tipd, sess, act, reply, calls>>
+view  == <<rev, sigs, roots, stored, acct, pool, pex, att, lock, olds, tipd, sess>>
 
 -----------------------------------------------------------------------------
 (* helpers *)
@@ -139,7 +141,9 @@ RemoveFirst(s, x) ==
     ELSE s
 
 Unlock(s) == IF lock = s THEN 0 ELSE lock
-Locked == lock # 0     \* a revising handler is refused while another one holds the try-lock
+Revisable == tipd < 0
+\* a revising handler is refused while another one holds the try-lock, and once the proof window has opened
+Locked == lock # 0 \/ ~Revisable
 
 -----------------------------------------------------------------------------
 (* session plumbing *)
@@ -193,6 +197,16 @@ Ignored(s) ==
     /\ calls' = <<>>
     /\ UNCHANGED <<data, lock, sess>>
 
+\* blocks are mined (between exchanges): only time passes
+Mine(n) ==
+    /\ \A s \in DOMAIN sess : Idle(s)
+    /\ n > 0
+    /\ tipd' = tipd + n
+    /\ act' = [op |-> "Mine", n |-> n]
+    /\ reply' = NoneR
+    /\ calls' = <<>>
+    /\ UNCHANGED <<rev, sigs, roots, stored, acct, pool, pex, att, olds, lock, sess>>
+
 \* a request that never arrives completely (cut after the RPC id / in the middle)
 Truncated(s) ==
     /\ Idle(s)
@@ -218,7 +232,7 @@ BeginFree(s, idx, pf, cf) ==
                /\ roots' = IF DevFreeAlias THEN arr ELSE roots
                /\ calls' = <<>>
                /\ reply' = NoneR
-               /\ UNCHANGED <<rev, sigs, stored, acct, pool, pex, att, olds>>
+               /\ UNCHANGED <<rev, sigs, stored, acct, pool, pex, att, olds, tipd>>
 
 Round2Free(s, sf) ==
     /\ sess[s].rpc = "free" /\ sess[s].round = 2
@@ -230,7 +244,7 @@ Round2Free(s, sf) ==
             /\ roots' = sess[s].nroots
             /\ sess' = [sess EXCEPT ![s].round = 3, ![s].pend = OkR]
             /\ calls' = <<"RV">>
-            /\ UNCHANGED <<stored, acct, pool, pex, att, olds, lock>>
+            /\ UNCHANGED <<stored, acct, pool, pex, att, olds, tipd, lock>>
        ELSE /\ sess' = [sess EXCEPT ![s].round = 3, ![s].pend = RejR]
             /\ lock' = Unlock(s)
             /\ calls' = <<>>
@@ -272,7 +286,7 @@ Round2Append(s, sf) ==
             /\ roots' = sess[s].nroots
             /\ sess' = [sess EXCEPT ![s].round = 3, ![s].pend = OkR]
             /\ calls' = <<"RV">>
-            /\ UNCHANGED <<stored, acct, pool, pex, att, olds, lock>>
+            /\ UNCHANGED <<stored, acct, pool, pex, att, olds, tipd, lock>>
        ELSE /\ sess' = [sess EXCEPT ![s].round = 3, ![s].pend = RejR]
             /\ lock' = Unlock(s)
             /\ calls' = <<>>
@@ -293,14 +307,14 @@ BeginRoots(s, off, len, pf, sf) ==
             /\ lock' = s
             /\ calls' = <<"RV">>
             /\ reply' = NoneR
-            /\ UNCHANGED <<roots, stored, acct, pool, pex, att, olds>>
+            /\ UNCHANGED <<roots, stored, acct, pool, pex, att, olds, tipd>>
 
 BeginLatest(s) ==
     /\ Idle(s)
     /\ act' = [op |-> "BeginLatest", s |-> s]
     /\ IF lock # 0
        THEN Reject(s, "latest")
-       ELSE /\ Final(s, "latest", Rep("ok", rev.num, <<0>>))
+       ELSE /\ Final(s, "latest", Rep("ok", rev.num, <<0, IF Revisable THEN 1 ELSE 0>>))
             /\ calls' = <<>>
             /\ reply' = NoneR
             /\ UNCHANGED <<data, lock>>
@@ -327,7 +341,7 @@ BeginFund(s, deps, sf, af) ==
                   /\ lock' = s
                   /\ calls' = <<"CA">>
                   /\ reply' = NoneR
-                  /\ UNCHANGED <<roots, stored, pool, pex, att, olds>>
+                  /\ UNCHANGED <<roots, stored, pool, pex, att, olds, tipd>>
 
 Bal(kind) == IF kind = "accts" THEN acct ELSE pool
 
@@ -374,7 +388,7 @@ Round2Repl(s, sf) ==
                     /\ UNCHANGED acct
             /\ sess' = [sess EXCEPT ![s].round = 3, ![s].pend = OkR]
             /\ calls' = <<IF sess[s].kind = "accts" THEN "CA" ELSE "CP">>
-            /\ UNCHANGED <<roots, stored, att, olds, lock>>
+            /\ UNCHANGED <<roots, stored, att, olds, tipd, lock>>
        ELSE /\ sess' = [sess EXCEPT ![s].round = 3, ![s].pend = RejR]
             /\ lock' = Unlock(s)
             /\ calls' = <<>>
@@ -411,7 +425,7 @@ BeginAttach(s, b) ==
                  /\ Final(s, "attach", OkR)
                  /\ calls' = <<"AT">>
                  /\ reply' = NoneR
-                 /\ UNCHANGED <<rev, sigs, roots, stored, acct, pool, pex, olds, lock>>
+                 /\ UNCHANGED <<rev, sigs, roots, stored, acct, pool, pex, olds, tipd, lock>>
 
 BeginDetach(s, b) ==
     /\ Idle(s)
@@ -422,7 +436,7 @@ BeginDetach(s, b) ==
             /\ Final(s, "detach", OkR)
             /\ calls' = <<"DT">>
             /\ reply' = NoneR
-            /\ UNCHANGED <<rev, sigs, roots, stored, acct, pool, pex, olds, lock>>
+            /\ UNCHANGED <<rev, sigs, roots, stored, acct, pool, pex, olds, tipd, lock>>
 
 -----------------------------------------------------------------------------
 (* paid services: read / write / verify sector, account balance.
@@ -447,7 +461,7 @@ Service(s, rpc, a, cost, precond, what, r) ==
               /\ Final(s, rpc, r)
               /\ calls' = <<"D+", what>>
               /\ reply' = NoneR
-              /\ UNCHANGED <<rev, sigs, roots, pex, att, olds, lock>>
+              /\ UNCHANGED <<rev, sigs, roots, pex, att, olds, tipd, lock>>
 
 BeginRead(s, a, sec, units, tf, pf) ==
     /\ Idle(s)
@@ -522,6 +536,7 @@ Round2Renew(s, sf, x) ==
             /\ sigs' = [r |-> rev', h |-> rev']
             /\ sess' = [sess EXCEPT ![s].round = 3, ![s].pend = OkR]
             /\ calls' = <<"RN">>
+            /\ tipd' = tipd - (x.ph - rev.ph)      \* time is counted against the proof height of the renewal
             /\ UNCHANGED <<roots, stored, acct, pool, pex, att, lock>>
        ELSE /\ sess' = [sess EXCEPT ![s].round = 3, ![s].pend = RejR]
             /\ lock' = Unlock(s)
@@ -556,6 +571,8 @@ Renewal == act'.op = "Round2Renew"      \* the step that replaces the contract b
 Committed == rev' # rev /\ ~Renewal
 
 \* C08: every committed revision ...
+\* TIME: once the proof window has opened nothing is ever committed (no revision could be confirmed any more)
+TooLateIsNoop  == [][tipd >= 0 /\ act'.op # "Mine" => UNCHANGED <<rev, sigs, roots, stored, acct, pool, pex, att, olds>> \/ act'.op \in {"BeginRead", "BeginWrite", "BeginVerify", "BeginAttach", "BeginDetach"}]_vars
 RevMonotone    == [][Committed => rev'.num > rev.num]_vars
 Immutable      == [][Renewal \/ (rev'.rk = rev.rk /\ rev'.hk = rev.hk /\ rev'.ph = rev.ph /\ rev'.eh = rev.eh /\ rev'.coll = rev.coll /\ rev'.dur = rev.dur)]_vars
 PayoutSumConstant == [][Renewal \/ rev'.rout + rev'.hout = rev.rout + rev.hout]_vars
